@@ -31,13 +31,13 @@ theorem panoc_exit_contract (P : Problem α) (dir : Direction D α) (d0 : D) (pr
     (hfuel : (run P dir d0 pr stop oot x0 y Sig errz0 gV gS).fuelOut = false) :
     ExitOK P x0 y Sig errz0 (run P dir d0 pr stop oot x0 y Sig errz0 gV gS) := by
   unfold run at hfuel ⊢
-  cases hi : initState P d0 pr x0 gV gS with
+  cases hi : initState P d0 pr stop x0 gV gS with
   | inl t =>
     simp only [hi] at hfuel ⊢
     exact ⟨fun h => absurd h (by simp), fun _ => ⟨rfl, rfl, rfl⟩⟩
   | inr s =>
     simp only [hi] at hfuel ⊢
-    have hs := initState_good P d0 pr x0 gV gS s hi
+    have hs := initState_good P d0 pr stop x0 gV gS s hi
     refine mainLoop_ok P dir pr stop oot x0 y Sig errz0 _ s hs ?_ hfuel
     rcases Bool.eq_false_or_eq_true s.fuelOut with hc | hc
     · have := mainLoop_fuelOut_mono P dir pr stop oot x0 y Sig errz0 (pr.maxIter + 2) s hc
